@@ -1,6 +1,6 @@
 (* C12 -- concurrent senders never interleave packets.  Statements only; proofs in Proofs/C12_*.v. *)
 From Coq Require Import List Arith Bool Sorting.Sorted.
-From EN Require Import Lib.Bytes Conc.FairLock Conc.Guard Conc.SendSerial Conc.AsyncioLock Proofs.C12_fairlock Proofs.C12_asynciolock Proofs.C12_wire Proofs.C12_guard Proofs.C12_order Conc.TlsSend Proofs.C12_tls IO.Retry IO.ClientLocks Conc.BlockingSend Proofs.C12_blocking.
+From EN Require Import Lib.Bytes Conc.FairLock Conc.Guard Conc.SendSerial Conc.AsyncioLock Proofs.C12_fairlock Proofs.C12_asynciolock Proofs.C12_wire Proofs.C12_guard Proofs.C12_order Conc.TlsSend Proofs.C12_tls IO.Retry IO.ClientLocks Conc.BlockingSend Proofs.C12_blocking Gen.ParamsC12 Proofs.C12_source.
 Import ListNotations.
 Open Scope nat_scope.
 
@@ -125,19 +125,20 @@ Proof. exact per_sender_order_proof. Qed.
 Print Assumptions per_sender_order.
 
 (* AsyncTLSStreamTransport.send_all / send_all_from_iterable under concurrent senders (ideal record layer: a record is its plaintext), every
-   label sequence incl. cancellation and transport errors: the bytes handed to the underlying transport so far
+   label sequence incl. cancellation, transport errors and tasks blocked in recv() that flush pending ciphertext: the bytes handed to the underlying transport so far
    (x_calls, one entry per transport.send_all call), followed by what is still pending in the write BIO, are the
    synchronous writes to the SSL object in the order they were made: nothing is reordered, lost or duplicated. *)
 Theorem tls_wire_order :
-  forall (progs : list (list (list bytes))) (ls : list xlabel) (s : tls), x_run (tls_init progs) ls = Some s ->
+  forall (progs : list (list (list bytes))) (readers : list tid) (ls : list xlabel) (s : tls),
+    x_run (tls_init progs readers) ls = Some s ->
     concat (rev (x_calls s)) ++ concat (x_wbio s) = concat (rev (x_writes s)).
 Proof. exact tls_wire_order_proof. Qed.
 Print Assumptions tls_wire_order.
 
 Example tls_example :
-  exists s, x_run (tls_init [[[[1%N]; [5%N]]; [[4%N]]]; [[[2%N]]]; [[[3%N]]]]) [TStart 0; TStart 1; TStart 2; TWrite 0; TResume 1] = Some s
-            /\ rev (x_calls s) = [[1%N; 5%N]; [2%N; 3%N; 4%N]] /\ x_wbio s = [].
-Proof. eexists. split; [vm_compute; reflexivity|]. split; reflexivity. Qed.
+  exists s, x_run (tls_init [[[[1%N]; [5%N]]; [[4%N]]]; [[[2%N]]]; []] [2]) [TStart 0; TStart 1; TStart 2; TWrite 0; TResume 1] = Some s
+            /\ rev (x_calls s) = [[1%N; 5%N]; [2%N; 4%N]] /\ x_wbio s = [] /\ nth_error (x_tasks s) 2 = Some XRdWait.
+Proof. eexists. split; [vm_compute; reflexivity|]. repeat split. Qed.
 
 (* Blocking TCPNetworkClient / UDPNetworkClient.  IO/ClientLocks.v (builder-io; its theorems locks_free_at_quiescence,
    send_never_waits_on_recv_lock ... are in Props/C11.v) gives: a lock is owned only by a call inside its body.  The
@@ -173,6 +174,20 @@ Example blocking_example :
                           BPiece 1; BLock (Finish 1 true) []] = Some s
             /\ b_wire s = [1%N; 2%N; 3%N] /\ o_send (b_c s) = None /\ o_recv (b_c s) = Some 2.
 Proof. eexists. split; [vm_compute; reflexivity|]. repeat split. Qed.
+
+(* The models are the code: read from the AST of /repo on every run (harness/c12.py source_params, fail closed).
+   FairLock.acquire: the fast path is refused when somebody queues; a task leaving the queue removes ITS OWN waiter
+   (`self._waiters.remove(waiter)`, what fl_resume / fl_cancel do); a cancelled waiter re-wakes the head when the lock is
+   free; _wake_up_first wakes `_waiters[0]`.  AsyncTLSStreamTransport: send_all_from_iterable puts the whole packet in the
+   backlog before its first await; every read of the write BIO and every send on the wrapped transport happens under
+   the transport send lock (what Conc/TlsSend.v's flush does). *)
+Theorem models_transcribe_the_source :
+  fairlock_fast_path_checks_queue = true /\ fairlock_leave_removes_own_waiter = true /\
+  fairlock_cancel_rewakes_when_free = true /\ fairlock_wakes_the_head = true /\
+  tls_whole_packet_enters_backlog_at_once = true /\ tls_bio_read_under_send_lock = true /\
+  tls_transport_send_under_send_lock = true.
+Proof. exact models_transcribe_the_source_proof. Qed.
+Print Assumptions models_transcribe_the_source.
 
 (* non-vacuity: two senders with the lock, the second one parks, the first completes, the hand-off happens *)
 Example send_serial_example :
